@@ -34,6 +34,7 @@ type staticCase struct {
 	Logging    bool   `json:"enable_logging,omitempty"`
 	Query      string `json:"raw_query,omitempty"`                                // the request also carries a query string (irrelevant to what is served or where a directory is redirected to)
 	IOFS       bool   `json:"filesystem_is_an_io_fs,omitempty"`                   // FileSystem is http.FS(os.DirFS(dir)) instead of http.Dir(dir): names with empty, "." or ".." elements are not valid there and cannot be opened
+	DirName    string `json:"directory_spelled,omitempty"`                        // Directory is this name under the fixture root (another name of the served tree, relative to the working directory for even request counts): a directory name is a name, whatever characters it contains
 	DefaultDir bool   `json:"directory_option_unset,omitempty"`                   // neither Directory nor FileSystem given: the documented default "public" (relative to the working directory, which is the fixture root) is served
 	Spread     bool   `json:"options_passed_as_slice_then_overwritten,omitempty"` // Static(slice...) and the caller reuses the slice afterwards: the middleware keeps the options it was created with
 }
@@ -78,6 +79,9 @@ var fixtureInside = []string{"pub/x", "pub/s/one", "pub/a.txt", "pub/dir/index.h
 	"pub/legacy/index.htm", "pub/legacy/index.html.bak", "pub/legacy/default.html", "pub/legacy/INDEX.HTML", "pub/legacy/index", "pub/legacy/index.php", "pub/legacy/_index.html", "pub/diridx/index.htm", "pub/diridx/default.htm"}
 var fixtureOutside = []string{"secret.txt", "pubx/leak", "pub2/a.txt", "index.html", "a.txt"}
 
+// c16DirNames: further names of the served tree. Nothing in a directory name is a variable, a pattern or an escape.
+var c16DirNames = []string{"$assets", "${HOME}", "$PWD", "~", "pub dir", "pub%41", "pub#1", "pub*", "pub?x", "%s", "{pub}", "pub;x", "$", "pub\\x"}
+
 func newFixture() *fixture {
 	root, err := os.MkdirTemp("", "verif-c16-")
 	if err != nil {
@@ -115,6 +119,11 @@ func newFixture() *fixture {
 	fx.cwd, _ = os.Getwd()
 	if err := os.Symlink("pub", filepath.Join(root, "public")); err != nil {
 		panic(err)
+	}
+	for _, n := range c16DirNames {
+		if err := os.Symlink("pub", filepath.Join(root, n)); err != nil {
+			panic(err)
+		}
 	}
 	if err := os.Chdir(root); err != nil {
 		panic(err)
@@ -379,6 +388,7 @@ func genStaticCase(rng *rand.Rand) *staticCase {
 		CustomFS:   rng.Intn(4) == 0,
 		Method:     "GET",
 		DefaultDir: rng.Intn(5) == 0,
+		DirName:    append([]string{"", "", "", ""}, c16DirNames...)[rng.Intn(4+len(c16DirNames))],
 		Spread:     rng.Intn(6) == 0,
 	}
 	if rng.Intn(3) == 0 {
@@ -472,6 +482,12 @@ func judgeStatic(w *core.W, fx *fixture, c *staticCase, classes func(string)) {
 	if c.DefaultDir && opts.FileSystem == nil {
 		opts.Directory = ""
 		w.Count("directory-option-unset")
+	} else if c.DirName != "" && opts.FileSystem == nil {
+		opts.Directory = filepath.Join(fx.root, c.DirName)
+		if len(c.Path)%2 == 0 {
+			opts.Directory = c.DirName // relative to the working directory
+		}
+		w.Count("directory-name-with-odd-characters")
 	}
 	f := flamego.NewWithLogger(io.Discard)
 	if c.Spread {
@@ -760,7 +776,7 @@ func runC16(r *core.Run) {
 	for _, k := range []string{"volatile:removed", "volatile:becomes-directory", "volatile:rewritten", "volatile:root-relinked"} {
 		r.GateCounter(k, 100)
 	}
-	for _, k := range []string{"class:traversal-in", "class:traversal-out", "class:look-alike", "class:dir-no-slash", "class:dir-slash", "class:dir-no-index-or-missing", "class:file", "class:missing", "class:NUL", "class:other-method", "outcome:file", "outcome:redirect", "outcome:not-modified", "outcome:silent", "fault:open", "fault:stat", "fault:index-open", "fault:index-stat", "directory-option-unset", "options-slice-overwritten-after-creation", "filesystem:io/fs", "if-none-match:formula-tag-of-a-directory"} {
+	for _, k := range []string{"class:traversal-in", "class:traversal-out", "class:look-alike", "class:dir-no-slash", "class:dir-slash", "class:dir-no-index-or-missing", "class:file", "class:missing", "class:NUL", "class:other-method", "outcome:file", "outcome:redirect", "outcome:not-modified", "outcome:silent", "fault:open", "fault:stat", "fault:index-open", "fault:index-stat", "directory-option-unset", "directory-name-with-odd-characters", "options-slice-overwritten-after-creation", "filesystem:io/fs", "if-none-match:formula-tag-of-a-directory"} {
 		r.GateCounter(k, 30)
 	}
 	r.Gate("distinct_nontrivial", r.NonTrivialCount(), 5000)
